@@ -5,6 +5,7 @@
    states; from these follows that two equally long messages differing in exactly one bit
    never have the same CRC (used by C02). *)
 From Coq Require Import Arith NArith List Lia Bool ZifyNat ZifyN.
+From FV Require Import Lib.NList.
 Import ListNotations.
 Open Scope N_scope.
 
@@ -206,6 +207,186 @@ Lemma update_spec_app c a b : update_spec c (a ++ b) = update_spec (update_spec 
 Proof. unfold update_spec. apply fold_left_app. Qed.
 Lemma update_app c a b : update c (a ++ b) = update (update c a) b.
 Proof. unfold update. apply fold_left_app. Qed.
+
+(* ---------------------------------------------------------------------------------- *)
+(* range of the register *)
+
+Lemma lt_pow2_bits x n : x < 2 ^ n <-> (forall m, n <= m -> N.testbit x m = false).
+Proof.
+  split.
+  - intros H m Hm. destruct (N.eq_dec x 0) as [->|Hx]; [apply N.bits_0|].
+    apply N.bits_above_log2. apply N.log2_lt_pow2 in H; lia.
+  - intros H. destruct (N.eq_dec x 0) as [->|Hx].
+    + apply N.neq_0_lt_0. apply N.pow_nonzero. discriminate.
+    + apply N.log2_lt_pow2; [lia|].
+      destruct (N.lt_ge_cases (N.log2 x) n) as [Hl|Hl]; [assumption|].
+      specialize (H (N.log2 x) Hl). rewrite N.bit_log2 in H by assumption. discriminate.
+Qed.
+
+Lemma lxor_lt_pow2 a b n : a < 2 ^ n -> b < 2 ^ n -> N.lxor a b < 2 ^ n.
+Proof.
+  rewrite !lt_pow2_bits. intros Ha Hb m Hm. rewrite N.lxor_spec, Ha, Hb by assumption. reflexivity.
+Qed.
+
+Lemma shiftr_lt_pow2 a n k : a < 2 ^ n -> N.shiftr a k < 2 ^ n.
+Proof.
+  rewrite !lt_pow2_bits. intros Ha m Hm. rewrite N.shiftr_spec'. apply Ha. lia.
+Qed.
+
+Lemma shiftr1_lt a : a < 2 ^ 32 -> N.shiftr a 1 < 2 ^ 31.
+Proof.
+  rewrite !lt_pow2_bits. intros Ha m Hm. rewrite N.shiftr_spec'. apply Ha. lia.
+Qed.
+
+Lemma poly_lt : poly < 2 ^ 32. Proof. reflexivity. Qed.
+
+Lemma step_lt c : c < 2 ^ 32 -> step c < 2 ^ 32.
+Proof.
+  intros H. unfold step. destruct (N.odd c).
+  - apply lxor_lt_pow2; [apply shiftr_lt_pow2; assumption|apply poly_lt].
+  - apply shiftr_lt_pow2; assumption.
+Qed.
+
+Lemma step8_lt c : c < 2 ^ 32 -> step8 c < 2 ^ 32.
+Proof. intros H. unfold step8. repeat apply step_lt. assumption. Qed.
+
+(* the step is injective on 32-bit states: the polynomial's top bit records the bit shifted out *)
+Lemma step_zero c : c < 2 ^ 32 -> step c = 0 -> c = 0.
+Proof.
+  intros Hc Hs. unfold step in Hs. destruct (N.odd c) eqn:Ho.
+  - exfalso. apply N.lxor_eq in Hs. pose proof (shiftr1_lt c Hc) as H. rewrite Hs in H.
+    revert H. vm_compute. discriminate.
+  - assert (Hev : N.even c = true) by (rewrite <- N.negb_odd, Ho; reflexivity).
+    apply N.even_spec in Hev. destruct Hev as [k ->].
+    rewrite N.shiftr_div_pow2 in Hs. change (2 ^ 1) with 2 in Hs.
+    rewrite N.mul_comm, N.div_mul in Hs by discriminate. subst k. reflexivity.
+Qed.
+
+Lemma step8_zero c : c < 2 ^ 32 -> step8 c = 0 -> c = 0.
+Proof.
+  intros Hc H. unfold step8 in H.
+  repeat (apply step_zero in H; [|repeat apply step_lt; assumption]). assumption.
+Qed.
+
+Lemma step8_inj a b : a < 2 ^ 32 -> b < 2 ^ 32 -> step8 a = step8 b -> a = b.
+Proof.
+  intros Ha Hb H. apply N.lxor_eq. apply step8_zero; [apply lxor_lt_pow2; assumption|].
+  rewrite step8_lxor, H. apply N.lxor_nilpotent.
+Qed.
+
+Lemma byte_lt32 b : b < 256 -> b < 2 ^ 32.
+Proof. intros H. eapply N.lt_trans; [exact H|reflexivity]. Qed.
+
+Lemma upd_byte_spec_lt c b : c < 2 ^ 32 -> b < 256 -> upd_byte_spec c b < 2 ^ 32.
+Proof.
+  intros Hc Hb. unfold upd_byte_spec. apply step8_lt. apply lxor_lt_pow2; [assumption|].
+  apply byte_lt32; assumption.
+Qed.
+
+Lemma update_spec_lt c bs : c < 2 ^ 32 -> Forall (fun b => b < 256) bs -> update_spec c bs < 2 ^ 32.
+Proof.
+  unfold update_spec. revert c. induction bs as [|b r IH]; intros c Hc H; cbn [fold_left]; [assumption|].
+  inversion H as [|? ? Hb Hr]; subst. apply IH; [|assumption]. apply upd_byte_spec_lt; assumption.
+Qed.
+
+Lemma upd_byte_spec_inj c c' b : c < 2 ^ 32 -> c' < 2 ^ 32 -> b < 256 ->
+  upd_byte_spec c b = upd_byte_spec c' b -> c = c'.
+Proof.
+  intros Hc Hc' Hb H. unfold upd_byte_spec in H.
+  apply step8_inj in H; try (apply lxor_lt_pow2; [assumption|apply byte_lt32; assumption]).
+  apply (f_equal (fun x => N.lxor x b)) in H.
+  rewrite !N.lxor_assoc, N.lxor_nilpotent, !N.lxor_0_r in H. assumption.
+Qed.
+
+Lemma update_spec_inj bs : forall c c', c < 2 ^ 32 -> c' < 2 ^ 32 -> Forall (fun b => b < 256) bs ->
+  update_spec c bs = update_spec c' bs -> c = c'.
+Proof.
+  unfold update_spec. induction bs as [|b r IH]; intros c c' Hc Hc' H E; cbn [fold_left] in E; [assumption|].
+  inversion H as [|? ? Hb Hr]; subst.
+  apply IH in E; try assumption; try (apply upd_byte_spec_lt; assumption).
+  eapply upd_byte_spec_inj; eassumption.
+Qed.
+
+(* ---------------------------------------------------------------------------------- *)
+(* single-bit errors are always detected *)
+
+(* bit i of a byte string: bit (i mod 8) of byte (i / 8) *)
+Definition flip_bit (i : N) (m : list N) : list N :=
+  let k := i / 8 in
+  takeN k m ++
+  match dropN k m with
+  | [] => []
+  | b :: r => N.lxor b (N.shiftl 1 (i mod 8)) :: r
+  end.
+
+Lemma pow2_byte j : j < 8 -> N.shiftl 1 j < 256.
+Proof.
+  intros H. rewrite N.shiftl_1_l. change 256 with (2 ^ 8). apply N.pow_lt_mono_r; [reflexivity|assumption].
+Qed.
+
+Lemma flip_bit_split i m : i < 8 * lenN m ->
+  exists pre b post, m = pre ++ b :: post /\ lenN pre = i / 8
+                     /\ flip_bit i m = pre ++ N.lxor b (N.shiftl 1 (i mod 8)) :: post.
+Proof.
+  intros Hi. assert (Hk : i / 8 < lenN m) by (apply N.div_lt_upper_bound; [discriminate|assumption]).
+  unfold flip_bit. pose proof (takeN_dropN (i / 8) m) as E.
+  destruct (dropN (i / 8) m) as [|b r] eqn:D.
+  - exfalso. pose proof (lenN_dropN (i / 8) m) as L. rewrite D in L. cbn in L. lia.
+  - exists (takeN (i / 8) m), b, r. split; [symmetry; exact E|]. split; [|reflexivity].
+    apply lenN_takeN. lia.
+Qed.
+
+Lemma flip_bit_wf i m : Forall (fun b => b < 256) m -> Forall (fun b => b < 256) (flip_bit i m).
+Proof.
+  intros H. unfold flip_bit. rewrite <- (takeN_dropN (i / 8) m) in H. apply Forall_app in H.
+  destruct H as [H1 H2]. apply Forall_app. split; [assumption|].
+  destruct (dropN (i / 8) m) as [|b r]; [constructor|].
+  inversion H2 as [|? ? Hb Hr]; subst. constructor; [|assumption].
+  change 256 with (2 ^ 8). apply lxor_lt_pow2; [assumption|].
+  apply pow2_byte. apply N.mod_lt. discriminate.
+Qed.
+
+Lemma flip_bit_len i m : lenN (flip_bit i m) = lenN m.
+Proof.
+  unfold flip_bit. rewrite <- (takeN_dropN (i / 8) m) at 3. rewrite !lenN_app. f_equal.
+  destruct (dropN (i / 8) m); [reflexivity|]. rewrite !lenN_cons. reflexivity.
+Qed.
+
+Lemma lxor_cancel_l a x y : N.lxor a x = N.lxor a y -> x = y.
+Proof.
+  intros H. apply (f_equal (N.lxor a)) in H.
+  rewrite <- !N.lxor_assoc, N.lxor_nilpotent, !N.lxor_0_l in H. assumption.
+Qed.
+
+Lemma update_spec_flip_ne c m i : c < 2 ^ 32 -> Forall (fun b => b < 256) m -> i < 8 * lenN m ->
+  update_spec c (flip_bit i m) <> update_spec c m.
+Proof.
+  intros Hc Hm Hi E.
+  destruct (flip_bit_split i m Hi) as (pre & b & post & -> & _ & F). rewrite F in E.
+  apply Forall_app in Hm. destruct Hm as [Hpre Hb]. inversion Hb as [|? ? Hb0 Hpost]; subst.
+  set (d := N.shiftl 1 (i mod 8)) in *.
+  assert (Hd : d < 256) by (apply pow2_byte; apply N.mod_lt; discriminate).
+  rewrite !update_spec_app in E. unfold update_spec at 1 3 in E. cbn [fold_left] in E.
+  fold (update_spec (upd_byte_spec (update_spec c pre) (N.lxor b d)) post) in E.
+  fold (update_spec (upd_byte_spec (update_spec c pre) b) post) in E.
+  pose proof (update_spec_lt c pre Hc Hpre) as H1.
+  assert (Hbd : N.lxor b d < 256) by (change 256 with (2 ^ 8); apply lxor_lt_pow2; assumption).
+  apply update_spec_inj in E; try assumption; try (apply upd_byte_spec_lt; assumption).
+  unfold upd_byte_spec in E.
+  apply step8_inj in E; try (apply lxor_lt_pow2; [assumption|apply byte_lt32; assumption]).
+  apply lxor_cancel_l in E. rewrite <- (N.lxor_0_r b) in E at 2. apply lxor_cancel_l in E.
+  unfold d in E. rewrite N.shiftl_1_l in E. revert E. apply N.pow_nonzero. discriminate.
+Qed.
+
+Theorem crc32_flip_ne m i : Forall (fun b => b < 256) m -> i < 8 * lenN m ->
+  crc32 (flip_bit i m) <> crc32 m.
+Proof.
+  intros Hm Hi E. unfold crc32 in E.
+  rewrite !update_eq in E by (try apply flip_bit_wf; assumption).
+  apply (f_equal (fun x => N.lxor x mask32)) in E.
+  rewrite !N.lxor_assoc, N.lxor_nilpotent, !N.lxor_0_r in E.
+  revert E. apply update_spec_flip_ne; try assumption. reflexivity.
+Qed.
 
 (* standard check value: CRC-32("123456789") = 0xCBF43926 *)
 Example crc32_check : crc32 [49;50;51;52;53;54;55;56;57] = 3421780262
